@@ -57,10 +57,15 @@ LayoutDescs ==
 
 \* ---- attestation descriptors
 TsForms == {"none", "Z", "offset", "frac"}
+\* nest: how the nested optional members of SLSA documents are populated
+\*   "full"  every nested optional member present; "empty" nested objects present but empty
+\*   ("completeness": {}, "invocation": {}, a material {}); "min" nested optional members absent
 PredDescs ==
-  [fields : SUBSET PredFields, mat : {"map", "list"}, ts : {"none"}]
+  [fields : SUBSET PredFields, mat : {"map", "list"}, ts : {"none"}, nest : {"full"}]
+  \cup [fields : {fs \in SUBSET PredFields : "builder" \in fs /\ fs \subseteq SlsaV01Req \cup SlsaV01Opt \cup SlsaV02Req \cup SlsaV02Opt},
+        mat : {"list"}, ts : {"none"}, nest : {"empty", "min"}]
   \cup [fields : {{"builder", "metadata"}, {"builder", "buildType", "metadata"}, {"builder", "metadata", "materials"}},
-        mat : {"list"}, ts : TsForms \ {"none"}]
+        mat : {"list"}, ts : TsForms \ {"none"}, nest : {"full"}]
 StmtDescs ==
   [fields : SUBSET StmtFields, declared : {"link02"}, contained : {"link02"}]
   \cup [fields : {V01Req}, declared : {"link02", "slsa01", "slsa02", "unknown"}, contained : {"link02", "slsa01", "slsa02"}]
